@@ -25,7 +25,7 @@ ADV = ['1', '11', '111', 'A', 'AA', 'a b', '0', '00', 'x_internal_y', 'n (m)', '
 
 
 def scenarios(seed, tier):
-    n = 200 if tier == 'quick' else 2000
+    n = 400 if tier == 'quick' else 2400
     rnd = random.Random(seed * 7919 + 9)
     for i in range(n):
         r2 = random.Random(rnd.getrandbits(48))
